@@ -89,7 +89,10 @@ def rotate_spherical_vector(ra1, dec1, ra2, dec2, ra3, dec3):
 
     ra = np.arctan2(vec[:, 1], vec[:, 0])
     ra += np.where(ra < 0., twopi, 0.)
-    dec = np.arcsin(vec[:, 2])
+    # A tiny negative angle plus 2pi rounds to exactly 2pi: wrap it to 0.
+    ra = np.mod(ra, twopi)
+    # Correct for possible rounding errors.
+    dec = np.arcsin(np.clip(vec[:, 2], -1., 1.))
 
     return (ra, dec)
 
